@@ -171,7 +171,7 @@ def _near(a, b):
     return difflib.SequenceMatcher(None, ta, tb).ratio() >= 0.8
 
 
-def compare(facts, res, rule, fa, fb, only=None, canon_a=None, canon_b=None, what=""):
+def compare(facts, res, rule, fa, fb, only=None, canon_a=None, canon_b=None, what="", rewrite=None, proven_helper=None):
     """Deviance between two sibling implementations.  Reported as a violation when the difference is one-sided
     (a step present in one sibling only) or when a differing pair is a near match (changed constant / operator /
     bound); two siblings that differ on both sides without any near match have been restructured, which this rule
@@ -189,10 +189,15 @@ def compare(facts, res, rule, fa, fb, only=None, canon_a=None, canon_b=None, wha
                     nm = tbf.callee_name(x)
                     base = tbf.call_base(x)
                     if nm in own and nm not in other and nm not in inl and (base is None or strip(base).get("k") == "CXXThisExpr"):
+                        if proven_helper is not None and proven_helper(f_.get("cls"), nm):
+                            continue   # the caller holds a proven identity that rewrites calls of this helper into the sibling's form
                         raise AnalysisBroken("%s calls the helper %s(), which only its own class has and which is not a single expression: part of %s was moved into it on one side only; "
                                              "the sibling comparison with %s cannot follow - re-confirm by reading" % (f_["qname"], nm, f_["name"], (fb if f_ is fa else fa)["qname"]))
     A = atoms(facts, fa, only, canon_a, inl)
     B = atoms(facts, fb, only, canon_b, inl)
+    if rewrite is not None:
+        A = {rewrite(ca, k): v for k, v in A.items()}
+        B = {rewrite(cb, k): v for k, v in B.items()}
     res.instance(rule, "%s vs %s" % (fa["qname"], fb["qname"]), facts.loc(fb), "%d / %d atoms%s%s" % (len(A), len(B), (" restricted to " + ",".join(only)) if only else "", (" ; inlined one-sided helpers " + ",".join(sorted(inl))) if inl else ""))
     onlyA, onlyB = sorted(set(A) - set(B)), sorted(set(B) - set(A))
     if onlyA and onlyB:
